@@ -3,10 +3,11 @@ import json
 import os
 from vlib import Check, ToolError, tlc_mc, run_harness, tlc_validate, workdir, require_actions, build_harness, log
 
+import p_router as _pr
 CLASSES = {
     "C08": {"find_missing", "find_spurious", "find_duplicate", "len", "get", "remove_return", "replace",
             "prefix_cut_inside_token", "prefix_not_common", "panic", "trace_rejected"},
-    "C12": {"cache_changes_find", "cache_changes_len", "cache_budget", "panic", "trace_rejected"},
+    "C12": {"cache_changes_find", "cache_changes_len", "cache_budget", "panic", "trace_rejected"} | _pr.CLASSES["C12"],
 }
 CFGS = {
     "quick": ["MC_RadixTree_quick.cfg"],
@@ -51,6 +52,9 @@ def run_prop(prop, tier):
         run_harness("radix", cases, trace, universe=mc["universe"])
         v = tlc_validate("Trace_RadixTree", "Trace_RadixTree.cfg", trace, wd, shards=12)
         c.add_validation(v, cases_path=cases, behaviours=mc["replays"], classes=CLASSES[prop])
+    if prop == "C12":
+        import p_router
+        p_router.router_part(c, wd, "C12", tier)
     c.assumptions = ["patterns are token sequences over the literals a b / . and the marker groups of RadixOps.tla; the model's "
                      "matching semantics is checked against the regex crate on every (pattern, probe) pair at the start of each run",
                      "ids are unique across patterns (as the router uses the tree); values are id:version strings"]
